@@ -230,7 +230,7 @@ func init() {
 			if tier == "thorough" {
 				return 16 * 220
 			}
-			return 16 * 14
+			return 16 * 40
 		},
 		Run:           runC01,
 		MinNonTrivial: 8,
@@ -250,7 +250,7 @@ func init() {
 			if tier == "thorough" {
 				return 16 * 220
 			}
-			return 16 * 14
+			return 16 * 20
 		},
 		Run:           runC02,
 		MinNonTrivial: 8,
@@ -278,12 +278,13 @@ func basicCase(c *CaseCtx, kind string) *ContCase {
 	case 2:
 		cc.Prof.Sizes = "hostile"
 		cc.Prof.PContainer = 8
-	case 3: // nesting heavy
+	case 3: // nesting heavy; removed / overwritten children are sometimes kept and mutated through their old handle
 		cc.Prof.Sizes = "mixed"
 		cc.Prof.PContainer = 30
 		cc.Prof.MaxDepth = 3
 		cc.Prof.PSome = 25
 		cc.Prof.Composite = true
+		cc.PerOp = newDetachedPlay(3, 50, 30).PerOp
 	case 4: // big elements at medium slabs: many leaves under one index slab
 		cc.Prof.Sizes = "hostile"
 		cc.Prof.PContainer = 0
